@@ -84,6 +84,8 @@ pub(crate) enum ErrorKind {
     IllegalPowerUnit,
     #[error("the power of a number must be an integer")]
     IllegalPowerNonInteger,
+    #[error("the power of a quantity with a unit is too large")]
+    IllegalPowerTooLarge,
     #[error("error when building tree")]
     TreeError {
         #[source]
